@@ -1,5 +1,5 @@
 """C10 -- in-dialog requests reach their dialog once each, in CSeq order."""
-import itertools
+import itertools, re
 
 ID = "C10"
 COQ_PROOF_TARGETS = ["Props/C10.vo"]
@@ -125,6 +125,7 @@ def gen_cases(rng, tier):
         n += 1
     # a usage that TAKES what it is offered (as the invite usage does): every released request still reaches it
     for perm in itertools.permutations(range(1, 5)):
+        cases.append(["meth%d" % n, "c10", "S:20:1:%s" % ["SUBSCRIBE", "REFER", "NOTIFY", "OPTIONS", "MESSAGE", "INFO"][n % 6], ",".join(_recv(0, 20 + p, "r%d" % i) for i, p in enumerate(perm))])
         cases.append(["take%d" % n, "c10", "S:20:1", ",".join(_recv(0, 20 + p, "r%d" % i) for i, p in enumerate(perm)), "take"]); n += 1
     for perm in ([2, 3, 1, 4], [3, 2, 1], [2, 1, 4, 3]):
         cases.append(["take%d" % n, "c10", "C:1", ",".join([_recv(0, 100, "r0")] + [_recv(0, 100 + p, "r%d" % (i + 1)) for i, p in enumerate(perm)]), "take"]); n += 1
@@ -316,6 +317,9 @@ def oracle(case, impl):
 
 
 def model_case(case, impl):
+    if re.search(r"S:\d+:\d+:[A-Z]+", case[2]):
+        # whichever request created the callee-side dialog, its CSeq is the base: the model has one kind of server dialog
+        case = case[:2] + [re.sub(r"(S:\d+:\d+):[A-Z]+", r"\1", case[2])] + case[3:]
     if "T:" in case[3]:
         # registering and dropping a usage leaves the model's state as it was
         case = case[:3] + [",".join("K:9" if e.startswith("T:") else e for e in case[3].split(","))] + case[4:]
